@@ -1,2 +1,206 @@
-(* C16 - statements only (filled in below). *)
-From Util Require Import Common.Base Common.ListLemmas Once.Model Once.Proofs.
+(* C16 — Once/MemoizeFunc: one call in flight, success kept forever, failure retried.
+   Statements only.  "For all schedules" = for every list of events of the models of Once/Model.v: any number of
+   Resolve calls (with live or already cancelled contexts), every interleaving of the callers' critical sections,
+   of the two ways an Await can wake up, of the callback goroutine's clear section and SetResult, of context
+   cancellations and callback outcomes (value / error / Canceled); for MemoizeFunc every interleaving of the
+   individual atomic operations and plain accesses of any number of callers. *)
+From Util Require Import Common.Base Common.ListLemmas Once.Model Once.Spec Once.Proofs.
+
+(* ---- Once: never two invocations of the callback at the same time.
+   At most one goroutine is inside user code; more precisely at most one goroutine "holds" (is inside the callback,
+   has returned an error and not yet run its clear section, or has succeeded), and a goroutine inside the callback
+   is the one whose promise is the Once's current promise, still unresolved.  The window between the clear
+   section and SetResult of a failed attempt is not "holding": a new attempt may start there, the old callback has
+   returned. *)
+Theorem c16_once_at_most_one_cb : forall es,
+  let s := run es in
+  cnt in_cb (gs s) <= 1 /\ cnt holds (gs s) <= 1 /\
+  forall g y, nth_error (gs s) g = Some y -> in_cb y = true -> prom s = Some g /\ done_res s g = None.
+Proof. exact at_most_one_cb. Qed.
+Print Assumptions c16_once_at_most_one_cb.
+
+(* a callback is entered only by a section that finds no current promise, and then nothing holds *)
+Theorem c16_once_cb_entry_needs_no_current : forall s a, Inv s ->
+  length (gs (step s (Sect a))) <> length (gs s) -> prom s = None /\ cnt holds (gs s) = 0.
+Proof. exact cb_entry_needs_no_current. Qed.
+Print Assumptions c16_once_cb_entry_needs_no_current.
+
+(* ---- Once: success is final.  Once the callback of attempt g has returned a value v (succeeded: parked before
+   SetResult, or resolved), then in every future: the promise is never cleared, no callback is ever entered again
+   (the goroutine table does not grow), every value any caller returns is v read from that promise, and every
+   caller whose critical section runs afterwards (started later, or parked at the gate, or already waiting on g)
+   and whose context is live when it has returned, returned v.
+   (Full text "every Resolve with a live context, concurrent or later, returns that value": a waiter that joined an
+   EARLIER failed attempt whose SetResult is delayed past the success still receives that attempt's error; this
+   is the behaviour of the code and is what `late` excludes.) *)
+Theorem c16_success_is_final : forall es g v,
+  let s := run es in
+  succeeded s g v -> forall es',
+  let s' := fold_left step es' s in
+  prom s' = Some g /\ succeeded s' g v /\ length (gs s') = length (gs s) /\
+  (forall a x v' src, nth_error (cs s') a = Some x -> cp x = CRet (RVal v') src -> v' = v /\ src = Some g) /\
+  (forall a x r src, nth_error (cs s') a = Some x -> late s g a -> cp x = CRet r src -> cc x = false -> r = RVal v).
+Proof. exact success_is_final. Qed.
+Print Assumptions c16_success_is_final.
+
+(* ---- Once: an error allows a retry.  Once attempt g has failed and run its clear section, then in every
+   future the Once's current promise is never g again (it is None or a later attempt), and every Resolve started
+   afterwards waits only on later attempts p > g and, if it returns a result read from a promise, read it from
+   such a later attempt: the callback was called again for it. *)
+Theorem c16_error_allows_retry : forall es g,
+  let s := run es in
+  failed s g -> forall es',
+  let s' := fold_left step es' s in
+  prom s' <> Some g /\ failed s' g /\
+  (forall p, prom s' = Some p -> g < p) /\
+  (forall a x, nth_error (cs s') a = Some x -> length (cs s) <= a ->
+     (forall p, cp x = CAwait p -> g < p) /\
+     (forall r p, cp x = CRet r (Some p) -> g < p /\ done_res s' p = Some r)).
+Proof. exact error_allows_retry. Qed.
+Print Assumptions c16_error_allows_retry.
+
+(* the critical section of a caller that finds no current promise enters the callback anew, with that caller's context *)
+Theorem c16_section_starts_new_attempt : forall s a x,
+  nth_error (cs s) a = Some x -> cp x = CGate -> prom s = None ->
+  let s' := step s (Sect a) in
+  prom s' = Some (length (gs s)) /\
+  nth_error (gs s') (length (gs s)) = Some {| gp := GInCb (cc x); gsp := a |} /\
+  nth_error (cs s') a = Some {| cp := CAwait (length (gs s)); cc := cc x |}.
+Proof. exact section_starts_new_attempt. Qed.
+Print Assumptions c16_section_starts_new_attempt.
+
+(* ---- Once: a cancelled caller gets Canceled, the others progress.
+   (a) Canceled is returned only to a caller whose own context is cancelled;
+   (b) quiescence: in a state without enabled internal step, a caller that is still blocked has a live context and
+       waits on the Once's current promise, which is unresolved and whose callback is inside user code -- never
+       on a resolved or orphaned promise;
+   (c) in such a state a caller with a cancelled context has returned. *)
+Theorem c16_cancelled_caller_gets_canceled_others_progress : forall es,
+  let s := run es in
+  (forall a x src, nth_error (cs s) a = Some x -> cp x = CRet RCanceled src -> cc x = true) /\
+  (quiescent s = true -> forall a x p, nth_error (cs s) a = Some x -> cp x = CAwait p ->
+     cc x = false /\ prom s = Some p /\ done_res s p = None /\
+     exists y ec, nth_error (gs s) p = Some y /\ gp y = GInCb ec) /\
+  (quiescent s = true -> forall a x, nth_error (cs s) a = Some x -> cc x = true ->
+     exists src, cp x = CRet RCanceled src \/ exists r, cp x = CRet r src).
+Proof. exact cancelled_caller_gets_canceled_others_progress. Qed.
+Print Assumptions c16_cancelled_caller_gets_canceled_others_progress.
+
+(* the inductive invariant behind all of the above *)
+Theorem c16_once_invariant : forall es, Inv (run es).
+Proof. exact run_inv. Qed.
+Print Assumptions c16_once_invariant.
+
+(* ---- MemoizeFunc: fn is called exactly once in total: the number of callers that ever entered fn equals the
+   started flag (so it is at most one, at every moment and in total), and is one as soon as any caller has returned *)
+Theorem c16_memo_exactly_one_call : forall es,
+  let s := mrun es in
+  cnt is_first (mcs s) = b2n (started s) /\ cnt is_first (mcs s) <= 1 /\ cnt m_in_fn (mcs s) <= 1 /\
+  (forall a p r, nth_error (mcs s) a = Some p -> m_returned p = Some r -> cnt is_first (mcs s) = 1).
+Proof. exact memo_exactly_one_call. Qed.
+Print Assumptions c16_memo_exactly_one_call.
+
+(* every caller that has returned, returned the result of that one call (the unique first caller f returned it
+   from fn), which is also what the result variables hold, and done is closed *)
+Theorem c16_memo_all_get_that_result : forall es a p r,
+  let s := mrun es in
+  nth_error (mcs s) a = Some p -> m_returned p = Some r ->
+  exists f, nth_error (mcs s) f = Some (MRetF r) /\ mresult s = Some r /\ mdone s = true /\
+            forall f' p', nth_error (mcs s) f' = Some p' -> is_first p' = true -> f' = f.
+Proof. exact memo_all_get_that_result. Qed.
+Print Assumptions c16_memo_all_get_that_result.
+
+(* publish before close (used by C13): done closed => the result is written; a written result is never written again;
+   a waiter released by the close reads exactly it *)
+Theorem c16_memo_publish_before_close : forall es,
+  let s := mrun es in
+  (mdone s = true -> exists f o, nth_error (mcs s) f = Some (MRetF o) /\ mresult s = Some o) /\
+  (forall o e, mresult s = Some o -> mresult (mstep s e) = Some o) /\
+  (forall a, nth_error (mcs s) a = Some MWait -> mdone s = true ->
+     exists r, mresult s = Some r /\ nth_error (mcs (mstep s (MWake a))) a = Some (MRet r)).
+Proof. exact memo_publish_before_close_all. Qed.
+Print Assumptions c16_memo_publish_before_close.
+
+(* ---- monitors vs. model.  BOUNDED (the unbounded model_satisfies_monitors is not proved): for every event sequence
+   accepted by the codec-level step, of length <= 7 from the initial state and of length <= 5 after each of six
+   prefixes that reach the interesting regions, the monitors of Spec.v report nothing on the model's own observations *)
+Theorem c16_once_monitors_accept_model_bounded :
+  N.ltb 0 (once_sweep 7 hinit monit) = true /\
+  forallb (fun p => N.ltb 0 (once_from p 5 hinit monit)) once_seeds = true.
+Proof. exact once_monitors_accept_model_bounded. Qed.
+Print Assumptions c16_once_monitors_accept_model_bounded.
+
+Theorem c16_memo_monitors_accept_model_bounded : N.ltb 0 (memo_sweep 7 minit mmonit) = true.
+Proof. exact memo_monitors_accept_model_bounded. Qed.
+Print Assumptions c16_memo_monitors_accept_model_bounded.
+
+(* ---------------- non-vacuity ---------------- *)
+(* a failed attempt whose SetResult is delayed, a second attempt that succeeds in the window, a late caller *)
+Example c16_example_retry_window :
+  let s := run [Resolve false; Sect 0; Resolve false; Sect 1;          (* callers 0,1 wait on attempt 0 *)
+                CbReturn 0 (RErr 7); GStep 0;                           (* error, clear section; SetResult pending *)
+                Resolve false; Sect 2; CbReturn 1 (RVal 5); GStep 1; WakeDone 2;   (* attempt 1 succeeds in the window *)
+                GStep 0; WakeDone 0; WakeDone 1;                        (* the old error is delivered to its waiters *)
+                Resolve false; Sect 3; WakeDone 3] in
+  failed s 0 /\ succeeded s 1 5 /\ prom s = Some 1 /\ quiescent s = true /\
+  map cp (cs s) = [CRet (RErr 7) (Some 0); CRet (RErr 7) (Some 0); CRet (RVal 5) (Some 1); CRet (RVal 5) (Some 1)].
+Proof.
+  vm_compute. repeat split; try reflexivity.
+  - eexists. split; [reflexivity|]. right. eexists. split; reflexivity.
+  - eexists. split; [reflexivity|]. right. reflexivity.
+Qed.
+
+(* the spawner's context is cancelled: it returns Canceled, the attempt is resolved with Canceled, the other
+   waiter goes round the loop and starts a new attempt with ITS context *)
+Example c16_example_spawner_cancelled :
+  let s := run [Resolve false; Sect 0; Resolve false; Sect 1; CancelCtx 0; WakeCtx 0;
+                CbReturn 0 (RErr 3); GStep 0; GStep 0; WakeDone 1; Sect 1] in
+  map cp (cs s) = [CRet RCanceled None; CAwait 1] /\ map gp (gs s) = [GDone RCanceled; GInCb false] /\
+  map gsp (gs s) = [0; 1] /\ prom s = Some 1 /\ quiescent s = true.
+Proof. vm_compute. repeat split; reflexivity. Qed.
+
+(* a blocked caller at quiescence: its callback is inside user code *)
+Example c16_example_quiescent_blocked :
+  let s := run [Resolve false; Sect 0; Resolve false; Sect 1; Resolve true] in
+  quiescent s = true /\ cnt in_cb (gs s) = 1 /\ map cp (cs s) = [CAwait 0; CAwait 0; CRet RCanceled None].
+Proof. vm_compute. repeat split; reflexivity. Qed.
+
+Example c16_example_memo :
+  let s := mrun [MCall; MCall; MSwap 1; MSwap 0; MCall; MSwap 2; MFnReturn 1 (RVal 9); MWriteRes 1; MWake 0; MClose 1; MWake 0; MWake 2] in
+  mcs s = [MRet (RVal 9); MRetF (RVal 9); MRet (RVal 9)] /\ mresult s = Some (RVal 9) /\ mdone s = true /\ cnt is_first (mcs s) = 1.
+Proof. vm_compute. repeat split; reflexivity. Qed.
+
+(* the monitors do reject: one observed trace per clause (taken from runs against seeded changes of the library) *)
+Open Scope N_scope.
+Example c16_monitor_rejects_two_callbacks :
+  flagged (run_check_once [] [[1;0];[1;0];[3;0;0];[3;1;0];[4;0];[4;1];[1;0];[3;3;0]]
+     [[1;0];[1;0;1;0];[2;0;1;0;6;0];[2;0;2;0;6;0];[4;0;2;0;6;0];[4;0;4;0;6;0];[4;0;4;0;6;0;1;0];[4;0;4;0;6;0;2;0;6;0]]) 1 = true.
+Proof. vm_compute. reflexivity. Qed.
+Example c16_monitor_rejects_callback_after_success :
+  flagged (run_check_once [] [[1;0];[3;0;0];[4;0];[5;1;0];[3;1;0];[1;0];[4;2];[3;2;1]]
+     [[1;0];[2;0;6;0];[4;0;6;0];[4;0;8;0];[4;0;9;0];[4;0;9;0;1;0];[4;0;9;0;1;0];[4;0;9;0;4;0;6;1]]) 2 = true.
+Proof. vm_compute. reflexivity. Qed.
+Example c16_monitor_rejects_stale_error :
+  flagged (run_check_once [] [[1;0];[3;0;0];[5;1;1];[3;1;0];[3;1;0];[1;0];[3;2;0]]
+     [[1;0];[2;0;6;0];[2;0;7;0];[2;0;8;0];[5;2;9;0];[5;2;9;0;1;0];[5;2;9;0;5;2]]) 3 = true.
+Proof. vm_compute. reflexivity. Qed.
+Example c16_monitor_rejects_foreign_canceled :
+  flagged (run_check_once [] [[1;0];[4;0];[3;0;1];[1;0];[5;1;1];[3;2;0];[3;1;0];[3;1;0]]
+     [[1;0];[1;0];[4;0;6;1];[4;0;6;1;1;0];[4;0;7;0;1;0];[4;0;7;0;2;0];[4;0;8;0;2;0];[4;0;9;0;4;0]]) 4 = true.
+Proof. vm_compute. reflexivity. Qed.
+Example c16_monitor_rejects_orphaned_waiter :
+  flagged (run_check_once [] [[1;0];[4;0];[3;0;1];[1;0];[5;1;1];[3;2;0];[3;1;0];[3;1;0]]
+     [[1;0];[1;0];[4;0;6;1];[4;0;6;1;1;0];[4;0;7;0;1;0];[4;0;7;0;2;0];[4;0;8;0;2;0];[4;0;9;0;2;0]]) 5 = true.
+Proof. vm_compute. reflexivity. Qed.
+Example c16_monitor_rejects_second_fn_call :
+  flagged (run_check_memo [] [[3;8;1]] [[2;0;6;0;2;0;2;0;2;0;6;0;2;0;2;0]]) 6 = true.
+Proof. vm_compute. reflexivity. Qed.
+Example c16_monitor_rejects_early_return :
+  flagged (run_check_memo [] [[1];[1]] [[6;0];[6;0;3;0]]) 7 = true.
+Proof. vm_compute. reflexivity. Qed.
+(* and accept the corresponding traces of the unchanged library *)
+Example c16_monitor_accepts_window_history :
+  run_check_once [] [[1;0];[3;0;0];[1;0];[3;2;0];[5;1;1];[3;1;0];[1;0];[3;3;0];[5;4;0];[3;4;0];[3;1;0];[1;0];[3;5;0]]
+    [[1;0];[2;0;6;0];[2;0;6;0;1;0];[2;0;6;0;2;0];[2;0;7;0;2;0];[2;0;8;0;2;0];[2;0;8;0;2;0;1;0];[2;0;8;0;2;0;2;0;6;0];
+     [2;0;8;0;2;0;2;0;8;0];[2;0;8;0;2;0;3;5;9;0];[5;2;9;0;5;2;3;5;9;0];[5;2;9;0;5;2;3;5;9;0;1;0];[5;2;9;0;5;2;3;5;9;0;3;5]] = [].
+Proof. vm_compute. reflexivity. Qed.
